@@ -34,9 +34,6 @@ Proof. unfold mem_r. destruct (in_dec res_dec x l); [tauto | discriminate]. Qed.
 Lemma dedupe_in x l : In x l -> In x (dedupe l).
 Proof. unfold dedupe. apply nodup_In. Qed.
 
-Definition action_eq_dec : forall a b : action, {a = b} + {a <> b}.
-Proof. decide equality. decide equality. Defined.
-
 Section Sound.
   Variable prog : fname -> stmt.
   Variable pparam : fname -> stmt.
@@ -89,11 +86,11 @@ Section Sound.
     - inversion H; subst; exact Hinv.
     - destruct (action_eq_dec a SetClosed) as [->|Hns].
       + inversion H; subst. now apply Inv_effect.
-      + assert (H' : (match e_act E (tick st) a with
+      + assert (H' : (match e_act E (occ a (journal st)) a with
                       | None => (Normal, effect E a (log_action a st))
                       | Some e => (Raised e, log_raise a e (log_action a st))
                       end) = (o, st')) by (destruct a; try exact H; congruence).
-        destruct (e_act E (tick st) a); inversion H'; subst; [exact Hinv | now apply Inv_effect].
+        destruct (e_act E (occ a (journal st)) a); inversion H'; subst; [exact Hinv | now apply Inv_effect].
     - destruct (EX f param s1 st) as [o1 st1] eqn:H1. pose proof (IH _ _ _ _ _ Hinv H1) as Hi1.
       destruct o1; try (inversion H; subst; exact Hi1). eapply IH; eassumption.
     - destruct (EX f param body st) as [o1 st1] eqn:H1. pose proof (IH _ _ _ _ _ Hinv H1) as Hi1.
@@ -226,11 +223,11 @@ Section Sound.
     + inversion H; subst o st'.
       intros [|af] R HR; cbn [aexec] in HR; [discriminate|]. apply Some_inj in HR; subst R.
       apply in_or_app. left. apply (in_map (fun y => (Normal, y))). apply alpha_effect. exact Hinv.
-    + assert (H' : (match e_act E (tick st) a with
+    + assert (H' : (match e_act E (occ a (journal st)) a with
                     | None => (Normal, effect E a (log_action a st))
                     | Some e => (Raised e, log_raise a e (log_action a st))
                     end) = (o, st')) by (destruct a; try exact H; congruence).
-      clear H. destruct (e_act E (tick st) a) as [e|] eqn:He.
+      clear H. destruct (e_act E (occ a (journal st)) a) as [e|] eqn:He.
       * inversion H'; subst o st'.
         intros [|af] R HR; cbn [aexec] in HR; [discriminate|]. apply Some_inj in HR; subst R.
         apply in_or_app. right.
